@@ -52,7 +52,17 @@ type caseRec struct {
 	DestGty string `json:"dest_gty,omitempty"`
 	SameG   string `json:"same_g,omitempty"`
 	DecG    string `json:"dec_g,omitempty"`
+	// container types: the same bytes decoded into one more typed destination (dests.go: maps keyed by interface{}, untyped containers,
+	// array / struct / pointer keys, taking turns): never a panic; outcome and value compared with the Go-representation model
+	AltDest  string `json:"alt_dest,omitempty"`
+	AltGty   string `json:"alt_gty,omitempty"`
+	AltClass string `json:"alt_class,omitempty"`
+	AltNull  bool   `json:"alt_null,omitempty"`
+	AltG     string `json:"alt_g,omitempty"`
+	AltErr   string `json:"alt_err,omitempty"`
 }
+
+var altTurn int
 
 func safely(f func()) (panicked bool, msg string) {
 	defer func() {
@@ -208,6 +218,12 @@ func runCase(id string, t *ctype, r *rep, a *aval, ver primitive.ProtocolVersion
 		}
 		rec.SameCoq = d.canon().coq()
 		rec.SameEqual = aEqual(d, a) || (enc == nil && wasNull)
+	}
+	if t.kind != "scalar" && len(enc) <= 3000 {
+		altTurn++
+		adt := styleType(t, a, 1+altTurn%nStyles)
+		res := decodeInto(t, codec, enc, ver, adt)
+		rec.AltDest, rec.AltGty, rec.AltClass, rec.AltNull, rec.AltG, rec.AltErr = "*"+adt.String(), res.Gty, res.Class, res.WasNull, res.G, res.Err
 	}
 	return rec
 }
